@@ -213,6 +213,12 @@ func (l *ledGen) makeTx(ins []gCoin, kind string) *gTx {
 	if len(t.outs) == 0 {
 		addOut(fmt.Sprintf("%s:%d", l.stranger(), int64(0)))
 	}
+	if (kind == "stake" || kind == "bind") && len(t.outs) > 1 && l.r.Intn(2) == 0 {
+		// the deposit is not always output 0
+		n := len(t.outs) - 1
+		t.outs[0], t.outs[n] = t.outs[n], t.outs[0]
+		l.g.Stats["tx-deposit-vout>0"]++
+	}
 	t.line = fmt.Sprintf("tx %s %d %s %s", t.name, l.nTx, strings.Join(inSpecs, ";"), strings.Join(t.outs, ";"))
 	return t
 }
@@ -547,6 +553,7 @@ func (l *ledGen) observe(full bool) {
 		if l.g.Prop == "C09" { // raw dumps of the pending stores
 			l.op("q-pins", "pins")
 			l.op("q-pcred", "pcred")
+			l.op("q-pgame", "pgame")
 		}
 	}
 }
